@@ -145,6 +145,14 @@ fn worker(sh: &Shared, seed: u64, round: u64, t: usize, ops: usize, shared_sid: 
                     _ => {
                         // reference client datagram (session ids collide across threads on purpose) -> shared server codec
                         let sid = if rng.chance(1, 2) { shared_sid } else { rng.next_u64() };
+                        // with a user table every thread speaks as a different user: sessions with EQUAL ids under DIFFERENT keys
+                        let (user_keys, want_user) = if m.is_2022() && !cfg.users.is_empty() {
+                            let u = (t + k) % cfg.users.len();
+                            (Some(refimpl::ss::Keys { psk: cfg.users[u].1.clone(), ipsks: vec![cfg.server_psk.clone()] }), Some(cfg.users[u].0.clone()))
+                        } else {
+                            (None, cfg.client_user.map(|u| cfg.users[u].0.clone()))
+                        };
+                        let keys = user_keys.as_ref().unwrap_or(keys);
                         let w = if m.is_2022() {
                             let p = ss::S22UdpPacket { session_id: sid, packet_id: rng.next_u64() >> 8, type_byte: 0, timestamp: NOW, client_session_id: None, padding: vec![], addr: target.clone(), payload: payload.clone() };
                             ss::s22_udp_client_encode(m, keys, &p, &rng.arr())
@@ -152,7 +160,6 @@ fn worker(sh: &Shared, seed: u64, round: u64, t: usize, ops: usize, shared_sid: 
                             ss::sip004_udp_encode(m, &keys.psk, &rng.bytes(m.key_len()), &target, &payload)
                         };
                         let mut b = BytesMut::from(&w[..]);
-                        let want_user = cfg.client_user.map(|u| cfg.users[u].0.clone());
                         match guarded(|| srv.decode(&mut b)) {
                             Ok(Some(d)) if d.payload == payload && d.addr == target && d.user == want_user => {
                                 // reply through the shared codec
